@@ -10,7 +10,7 @@ from ..algebra import Extractor, Rat, Unsupported
 from ..cfg import CFG
 from ..core import Ctx
 from ..model import body_stmts, dotted, kwarg, norm, walk_no_nested
-from .common import assigned_value, enclosing, expand_locals
+from .common import assigned_value, enclosing, expand_locals, pnorm
 
 FN = "Alignment.gamma_k_disorder"
 
@@ -295,7 +295,7 @@ def run(ctx: Ctx):
     # ---------------- R-C12-3
     j = ctx.fn("_compute_gamma_k_job", "R-C12-3")
     rets = [r for r in walk_no_nested(j.node) if isinstance(r, ast.Return)]
-    ctx.check(len(rets) == 1 and norm(rets[0].value) == f"{j.params[1]}.gamma_k_disorder({j.params[0]}, {j.params[2]})", "R-C12-3", j, rets[0] if rets else None,
+    ctx.check(len(rets) == 1 and pnorm(M, rets[0].value) == f"{j.params[1]}.gamma_k_disorder({j.params[0]}, {j.params[2]})", "R-C12-3", j, rets[0] if rets else None,
               "the job computes alignment.gamma_k_disorder(dissimilarity, category)", key="job")
     for qn, cat in (("GammaResults.gamma_cat", "None"), ("GammaResults.gamma_k", None)):
         g = ctx.fn(qn, "R-C12-3")
